@@ -48,6 +48,13 @@ def nearest(kind, vals, p, acc, stratum):
         if engine_error(f):
             return 'engine error (model) ' + f
         if not _collinear(kind, vals) and not cmp_rel(i, f, 1e-9, sc * sc):   # collinear input: the solver is chaotic there (known finding), not compared
+            # a TIE: two parameters realise the same minimum (e.g. a closed loop queried at its own start/end point, a point on the axis of symmetry):
+            # crate and model may pick different ones after a harmless change of rounding; both answers were just checked against the exact minimum
+            fv = floats_of(f)
+            if len(fv) == 2 and abs(math.sqrt(max(fv[1], 0.0)) - got_d) <= 1e-9 * sc and 0.0 <= fv[0] <= 1.0 and abs(fv[0] - t) > 1e-6:
+                atm = math.hypot(float(O.peval(px, Fr(fv[0]))) - p[0], float(O.peval(py, Fr(fv[0]))) - p[1])
+                if atm <= true_d + 2 * acc + slack:
+                    return None
             return f'CORR impl != model@Float impl={i} model={f}'
         return None
     return Case(line, 'IF', judge, stratum, 'oracle')
